@@ -77,7 +77,8 @@ def cases(tier, sd):
             for vac in ([True, False] if vac_member else [False]):
                 out.append(dict(member=m, order=p, n1=n1, Lambda=lam,
                                 vacuum=vac, box=box, t0=0.3, mode='open',
-                                components=bool((mi + p) % 3 == 0 or m.get('shift_x0')), no_T=ds))
+                                components=bool((mi + p) % 3 == 0 or m.get('shift_x0')), no_T=ds,
+                                aniso=bool((mi + p // 2) % 2)))
     # periodic members: every order, all stencils centred
     per_orders = [(6, 12), (8, 16)] if tier == "quick" else [(2, 16), (4, 12), (6, 12), (8, 16), (6, 16)]
     for mi, m in enumerate(members(tier, sd, period=2.0)):
